@@ -108,6 +108,25 @@ Theorem C16_serves_designated_file : forall c fs rqs,
 Proof. exact serves_designated_file. Qed.
 Print Assumptions C16_serves_designated_file.
 
+(* HTTP_X_VHM_ROOT on the route-mounted views (run_request = the gate below around the request without the header): the
+   model's gate, stated with the specification's notions: no segment -> as without the header; first segment names a view
+   other than '' -> 404; first segment the bare selector '@@' -> request.subpath is the REST OF THE VIRTUAL ROOT (the
+   specification is silent there, containment is not); C16_serves_designated_file / C16_containment above are stated for run_request, i.e. with the header *)
+Theorem C16_vroot_gate_spec : forall c,
+  vroot_gate c = match c_vroot c with
+                 | None => Datatypes.inr GPass
+                 | Some v => match Utf8.decode v with
+                             | None => Datatypes.inl (RExc 2)
+                             | Some u => match split_path_info u with
+                                         | [] => Datatypes.inr GPass
+                                         | seg :: rest => Datatypes.inr (if empty_text (spec_view_name seg)
+                                                                         then GOverride rest else GNoView)
+                                         end
+                             end
+                 end.
+Proof. exact vroot_gate_spec. Qed.
+Print Assumptions C16_vroot_gate_spec.
+
 (* filemap transparency: whatever the view instance has cached from this file
    system (reload on or off), every answer of a request sequence equals the
    answer a fresh instance gives to that request alone.  No hypothesis on the
@@ -291,6 +310,21 @@ Theorem C16_gen_compile_content_encodings_is_model : forall encmap encs,
   gen_compile_content_encodings encmap encs = compile_encodings encs encmap.
 Proof. exact gen_compile_content_encodings_is_model. Qed.
 Print Assumptions C16_gen_compile_content_encodings_is_model.
+
+(* the configuration-time functions [configure] is built from, translated from asset.py, config/__init__.py and (the
+   statements of StaticURLInfo.add that normalise the spec) config/views.py *)
+Theorem C16_gen_resolve_asset_spec_is_model : forall spec pname,
+  gen_resolve_asset_spec spec pname = resolve_asset_spec spec pname.
+Proof. exact gen_resolve_asset_spec_is_model. Qed.
+Print Assumptions C16_gen_resolve_asset_spec_is_model.
+
+Theorem C16_gen_make_spec_is_model : forall cfg_pkg path, gen_make_spec cfg_pkg path = make_spec path cfg_pkg.
+Proof. exact gen_make_spec_is_model. Qed.
+Print Assumptions C16_gen_make_spec_is_model.
+
+Theorem C16_gen_static_add_spec_is_model : forall spec, gen_static_add_spec spec = static_add_spec spec.
+Proof. exact gen_static_add_spec_is_model. Qed.
+Print Assumptions C16_gen_static_add_spec_is_model.
 
 (* static_view.__init__ (attribute stores collected into a record; every attribute bound exactly once on every path) *)
 Theorem C16_gen_init_is_model : forall encmap caller root_dir package_name use_subpath index reload encs,
